@@ -13,6 +13,7 @@ CONSTANTS
   UseFollower = TRUE
   UseBounded = TRUE
   C0 = "c1"
+  UseGrpc = FALSE
   UseRace = FALSE
   MaxElect = 0
   StrandedKnown = TRUE
